@@ -3,7 +3,9 @@ LEVEL = "proof"
 LEAN_MODULES = ["CifModel.Props.C19", "CifModel.Props.ReviewC19"]
 REQUIRED = ["CifModel.C19_list_is_sequence", "CifModel.C19_table_is_map", "CifModel.C19_table_invalid_key",
             "CifModel.C19_table_history", "CifModel.C19_packet_is_map", "CifModel.C19_packet_create", "CifModel.C19_wrong_kind",
-            "CifModel.C19_clone_equal", "CifModel.C19_reinit_releases", "CifModel.C19_packet_create_dup", "CifModel.C19_cex_packet_create_dup_pinned",
+            "CifModel.C19_clone_equal", "CifModel.C19_reinit_result_independent", "CifModel.C19_reinit_releases",
+            "CifModel.C19_clone_reads_source", "CifModel.C19_put_copies_addr", "CifModel.C19_set_element_addr", "CifModel.C19_map_set_item_addr",
+            "CifModel.C19_clone_onto_addr", "CifModel.C19_members_by_reference", "CifModel.C19_packet_create_dup", "CifModel.C19_cex_packet_create_dup_pinned",
             "CifModel.C19_cex_clone_alias_pinned",
             "CifModel.C19_clone_disjoint", "CifModel.C19_put_copies", "CifModel.C19_remove_transfers",
             "CifModel.C19_remove_transfers_entry", "CifModel.C19_reinit_releases_heap", "CifModel.C19_capacity_growth",
@@ -15,7 +17,7 @@ FAMILIES = ["val", "valheap"]
 TRUSTED_BASE = [
     "Lean 4.33.0 kernel; axioms propext, Classical.choice, Quot.sound only (audited per theorem on every run)",
     "uthash allocates exactly two blocks (table, bucket array) while a map is non-empty and none otherwise (family valheap "
-    "observes it; bucket expansion above 320 entries is not reached)",
+    "observes it, including tables grown past the bucket expansions: the bucket array is replaced block for block)",
     "uthash as an insertion-ordered map (HASH_ADD appends to the application order, HASH_FIND finds the entry of a key, "
     "HASH_DEL removes it) — observed by family val",
     "key normalisation is a parameter of the model (`norm`); the requests carry the normalised forms, computed by Python's "
@@ -29,12 +31,29 @@ ASSUMPTIONS = [
     "the heap-level model proves the ownership protocol, not the C code",
 ]
 PARTIAL = [
+    "clone equality and 'containers copy what is put in': the pure-level statements are definitional (clone = id on immutable "
+    "trees); the statements with content are at heap level — C19_clone_reads_source (cloneH follows the source's pointers cell by "
+    "cell and is proved to yield a disjoint structure representing the same value, source unchanged), C19_put_copies_addr / "
+    "C19_set_element_addr / C19_map_set_item_addr / C19_clone_onto_addr (the operations take the ADDRESS of the caller's object). "
+    "Limits: (i) set_element_at / map_set_item on an EXISTING member with a source INSIDE the member replaced: the member-level "
+    "statement is C19_clone_onto_addr (scratch copy first, any aliasing) for free-standing target objects (.val blocks) only — for "
+    "a target that is a list element the re-assembly of the enclosing list's representation, and for a target that is a map "
+    "entry's inline value the whole statement, are proved for sources OUTSIDE the container only; the aliased member cases are "
+    "carried by the pure theorem C19_clone_onto_repaired and by correspondence (val / valheap flavours alias-inside, "
+    "alias-ancestor, self-clone); (ii) mapSetItemAddrH takes the copy after releasing the old value where the C takes it "
+    "before: same heap for outside sources (mapSetItemAddrH_eq), the driver uses the C's order when the two could differ",
+    "operation HISTORIES: the only run theorem is C19_table_history (flat tables, pure level); for lists, nested paths and at heap "
+    "level every theorem is about ONE operation from any represented state (pre/post in terms of Rep, so the statements chain, "
+    "but the chaining is not itself a theorem); histories are exercised by families val / valheap (<= 300 operations)",
+    "failure paths of the re-initialisers (cif_value_parse_numb / copy_char on invalid input leave the object as it was) are "
+    "modelled at pure level only (Model/Numb, C10); reinitH models the successful path",
     "heap level: proved for clone (any depth; onto a fresh and onto an existing object incl. the aliasing cases), release (any "
     "depth, shared key blocks included), list insert with capacity growth / set in place / remove with transfer of ownership, "
+    "members handed out by reference (C19_members_by_reference), "
     "cif_map_set_item and cif_map_retrieve_item(do_remove) on whole standalone maps (refinement of the pure mapSet / mapErase), "
     "cif_packet_create over a whole name list incl. the CIF_DUP_ITEMNAME refusal, cif_packet_free, get_keys, entry re-spelling "
-    "and detaching. the (re)initialisers (reinitH). NOT stated at heap level: convert_to_standalone (unreachable through the public API), allocation "
-    "failures (property C17)",
+    "and detaching, the (re)initialisers (C19_reinit_releases). NOT stated at heap level: convert_to_standalone (unreachable "
+    "through the public API), allocation failures (property C17)",
     "the heap model is tied to value.c / map.c / packet.c by family valheap: for every operation of the same random sequences "
     "(a) the change in the number of live blocks reported by the allocation tracker (harness/alloc.h) equals the change the heap "
     "model predicts (model cells + 2 blocks per non-empty uthash map), (b) a walk of the real structures from the slots reaches "
@@ -46,14 +65,17 @@ PARTIAL = [
 ]
 LEVEL_TEXT = ("Proof about an executable Lean model at two levels. Pure level: list operations are the sequence operations with exactly "
               "the documented CIF_INVALID_INDEX conditions; table and packet operations refine an abstract map keyed by the normalised "
-              "key (any history, key enumeration in insertion order with the latest spelling); wrong-kind calls; clone equality; "
-              "re-initialisers. Heap level (explicit addresses, malloc/free, ownership predicate): a clone of a value of any depth "
-              "lives on fresh blocks and clone+release restores the heap; releasing a value frees exactly its footprint, each block "
+              "key (any history, key enumeration in insertion order with the latest spelling); wrong-kind calls. "
+              "Heap level (explicit addresses, malloc/free, ownership predicate): the clone READS its source cell by cell (cloneH) and "
+              "yields, for a value of any depth, a structure on fresh blocks that represents the same value, source untouched, "
+              "clone+release restores the heap; insert / set / map set take the address of the caller's object; members are handed "
+              "out by reference and writing through the pointer is writing the container; re-initialisers release exactly the old "
+              "footprint; releasing a value frees exactly its footprint, each block "
               "once; insert copies; remove transfers ownership; the key/key_orig aliasing protocol of map entries (F10). Tied to the C "
               "by family val: random operation sequences on the real library under ASan/UBSan, compared step by step with the pure "
               "model and, independently, with a Python transcription of the documented contracts; and by family valheap: the same "
-              "sequences with the allocation tracker on, the per-operation change in live heap blocks compared with the heap "
-              "model run on the sequence.")
+              "sequences with the allocation tracker on, the per-operation change in live heap blocks, the ownership of every live block and the contents of "
+              "all string blocks compared with the heap model run on the sequence (the model's clone is cloneH, reading the source).")
 LEVEL_NOTE = ("Pure level proved in full. Heap level proved for every value / list / map / packet operation except the unreachable "
               "convert_to_standalone and allocation failures (C17). The two defects this property found (F35 source inside the clone "
               "target / self-clone, F36 duplicate names in cif_packet_create) are repaired in the sources (f1b092b, c571e89); the "
